@@ -8,6 +8,10 @@ from .. import gen, contracts
 from . import c02
 
 PROP = "C08"
+LEVEL_TEXT = 'List-model oracle for concatenate (both axes, mixed dtypes), *_like, padded matrix, nonzero, where, subset / mask indexing, ragged_slice on ragged / 1-D / 2-D inputs, fresh and lazy receivers. Exploration.'
+LEVEL_NOTE = "trusts numpy 2.x, CPython (copy.copy, slice semantics, big ints) and the reference model in rtmon/props/c08.py; decides the executions it produces, nothing more"
+TECHNIQUE = 'runtime monitoring: reference-model oracle (list model) at the API boundary'
+DESIGN_REF = "DESIGN.md sections 0, 5 (C08), 7"
 RULE = ("case = (operation, operand row lengths / dtypes / values, masks, per-row starts/ends, receiver kind); oracle = list model; "
         "distinct = hash of the case; non-trivial = >= 2 rows in total and >= 1 cell")
 ASSUMPTIONS = ["where: ragged mask, ragged x, ragged or scalar y (a scalar x is outside the statement)", "as_padded_matrix needs >= 1 row",
